@@ -168,7 +168,7 @@ func (verify *VerifyServerController) handlePairVerifyFinish(in util.Container) 
 
 	if err != nil {
 		verify.reset()
-		log.Info.Panic(err)
+		log.Info.Println(err)
 		out.SetByte(TagErrCode, ErrCodeAuthenticationFailed.Byte()) // return error 2
 	} else {
 		in, err := util.NewTLV8ContainerFromReader(bytes.NewBuffer(decryptedBytes))
